@@ -55,6 +55,15 @@ def build_state(case):
             if par[j] != par[n - 1]:
                 labels[n - 1] = labels[j]
                 break
+    elif lab == "twopairs" and n >= 4:
+        # two clone groups of two nodes each (the last two nodes repeat two earlier ones below other parents)
+        used = set()
+        for i in (n - 1, n - 2):
+            for j in range(n - 2):
+                if par[j] != par[i] and j not in used:
+                    labels[i] = labels[j]
+                    used.add(j)
+                    break
     elif lab == "eqsib":
         labels = ["x"] * n
         ids = [f"id{i}" for i in range(n)]
@@ -259,6 +268,72 @@ def run_onestep(case, res, *, own_prop, extra_props=()):
             res.count(f"context_finding:{f.tag}")
 
 
+FIRST_OPS = ("set_data", "rename", "remove", "move", "add", "addnode")
+
+
+def _index_dependent(opd):
+    """Second steps whose documented effect depends on which nodes share an id."""
+    return opd.get("with_clones") is True or (opd["op"] == "set_data" and "with_clones" not in opd) or opd["op"] == "addnode"
+
+
+def twostep_cases(bound, typed_bound, shard_i, nshards, full_bound=0):
+    """(state, first op that changes which nodes share an id, second op whose effect depends on it)."""
+    k = 0
+    for n in range(2, bound + 1):
+        for f in gen.forests(n):
+            for lab in ("clonepair", "twopairs"):
+                if lab == "twopairs" and n < 4:
+                    continue
+                for typed in ([False, True] if n <= typed_bound else [False]):
+                    k += 1
+                    if k % nshards != shard_i:
+                        continue
+                    base = {"kind": "twostep", "f": gen.code(f), "lab": lab, "typed": typed, "meta": False}
+                    first_ops = FIRST_OPS if n <= full_bound else ("set_data", "rename")
+                    firsts = [o for o in enum_ops(build_state(base), invalid=False) if o["op"] in first_ops
+                              and (o["op"] not in ("add", "addnode") or o.get("before") is None)]
+                    for opd in firsts:
+                        s = build_state(base)
+                        try:
+                            if s.step(opd, monitors=False) or not s.last_ok:
+                                continue
+                        except Exception:
+                            continue
+                        for opd2 in enum_ops(s, invalid=False):
+                            if _index_dependent(opd2):
+                                yield {**base, "opd": opd, "opd2": opd2}
+
+
+def run_twostep(case, res):
+    try:
+        with case_deadline(30):
+            s = build_state(case)
+            first = s.step(case["opd"], monitors=False)
+            if first or not s.last_ok:
+                res.count("twostep_first_not_applied")
+                return
+            s.log[:] = s.log[-1:]
+            n_nodes = len(s.m.all())
+            findings = s.step(case["opd2"])
+    except CaseTimeout:
+        res.inconc("case watchdog fired")
+        return
+    except Exception:
+        res.inconc("two-step harness error: " + short_tb())
+        return
+    res.case(case, nontrivial=n_nodes >= 3)
+    res.count("twostep_cases")
+    for k, v in s.counters.items():
+        res.count(k, v)
+    for d in s.state_digests:
+        res.observe("tree_states_after_a_step", d)
+    for f in findings:
+        if f.prop == OWN:
+            res.violation(case, f"[{f.tag}] {f.msg}", history=s.log[-3:])
+        else:
+            res.count(f"context_finding:{f.tag}")
+
+
 def onestep_cases(bound, typed_bound, shard_i, nshards, *, invalid=True):
     k = 0
     for n in range(0, bound + 1):
@@ -279,6 +354,8 @@ def onestep_cases(bound, typed_bound, shard_i, nshards, *, invalid=True):
 def run_case(case, res):
     if case.get("kind") == "onestep":
         return run_onestep(case, res, own_prop=OWN)
+    if case.get("kind") == "twostep":
+        return run_twostep(case, res)
     s = hist.run_history(case, res, own_prop=OWN)
     res.case(case, nontrivial=getattr(s, "nsteps", 0) >= 3 and s.max_nodes >= 4)
 
@@ -290,6 +367,8 @@ def shards(tier, seed):
     bound, tb = (4, 3) if tier == "quick" else (5, 4)
     out = [{"name": f"one{i}", "kind": "one", "i": i, "bound": bound, "typed_bound": tb,
             "budget_s": 200 if tier == "quick" else 3000} for i in range(NSHARDS)]
+    out += [{"name": f"two{i}", "kind": "two", "i": i, "bound": 4 if tier == "quick" else 5, "typed_bound": 3 if tier == "quick" else 4,
+             "budget_s": 200 if tier == "quick" else 3000} for i in range(NSHARDS)]
     out += [{"name": f"hist{i}", "kind": "hist", "i": i, "count": 150 if tier == "quick" else 6000,
              "budget_s": 100 if tier == "quick" else 1500} for i in range(NSHARDS)]
     return out
@@ -310,6 +389,14 @@ def run_shard(spec, res):
             if res.expired():
                 res.count("exhaustive_cut")
                 res.inconc("enumeration cut by time budget")
+                return
+    elif spec["kind"] == "two":
+        for case in twostep_cases(spec["bound"], spec["typed_bound"], spec["i"], NSHARDS,
+                                  full_bound=3 if spec["tier"] == "quick" else 4):
+            run_case(case, res)
+            if res.expired():
+                res.count("exhaustive_cut")
+                res.inconc("two-step enumeration cut by time budget")
                 return
     else:
         for case in gen_hist_cases(spec):
